@@ -75,6 +75,14 @@ def walk(defs, t, v, bt, path=(), names=(), tcnames=(), crossed=0):
 POOL = [None, True, 5, 'zz', b'by', (b'\x80', 1), [], {}, ('zz', 1), (1, 2), 1.5, (b'\x80', 9)]
 
 
+NEAR = {
+    'BOOLEAN': [5, None], 'NULL': [False, 'zz'], 'INTEGER': [1.5, b'by'], 'ENUMERATED': [5, b'by'],
+    'OCTET STRING': ['zz', (b'\x80', 1)], 'BIT STRING': [b'by', (b'\x80', 9)], 'STRING': [b'by', 5],
+    'OBJECT IDENTIFIER': [5, b'by'], 'SEQUENCE': [[], ('zz', 1)], 'SET': [[], None], 'SEQUENCE OF': [{}, ('zz', 1)],
+    'SET OF': [{}, b'by'], 'CHOICE': [[], (1, 2)],
+}
+
+
 def py_accepts(t, v):
     k = t['k']
     if k == 'BOOLEAN':
@@ -113,7 +121,10 @@ def corruptions(gen, rng, defs, rt, t, v):
     out = []
     k = t['k']
     rej = [x for x in POOL if not py_accepts(t, x)]
-    for x in rng.sample(rej, min(3, len(rej))):
+    # the objects most easily confused with the right type first, then a random one
+    near = [x for x in NEAR.get(k, []) if not py_accepts(t, x)]
+    rest = [x for x in rej if x not in near]
+    for x in near[:2] + (rng.sample(rest, 1) if rest else []):
         out.append(('type', 'type:%s<-%s' % (k.split()[0], type(x).__name__), 'replace', x))
     if k == 'CHOICE':
         out.append(('choice', 'choice:unknown', 'replace', ('zz', v[1] if isinstance(v, tuple) else None)))
